@@ -19,11 +19,12 @@ import (
 // C16Case: a document; Subset says the generator built it from the supported subset (then a
 // value is required), otherwise it is a corruption / hostile input.
 type C16Case struct {
-	Doc    []byte `json:"doc"`
-	Subset bool   `json:"subset"`
-	Pre    int    `json:"pre,omitempty"`   // > 0: the document is the second file of its set, behind a file of that many bytes
-	Disk   bool   `json:"disk,omitempty"`  // the document is written to disk and loaded with text.ReadFile (as examples/json does)
-	PadWS  int    `json:"padWs,omitempty"` // > 0: that many spaces and one CRLF are put in front of the document (large files)
+	Doc         []byte `json:"doc"`
+	Subset      bool   `json:"subset"`
+	Pre         int    `json:"pre,omitempty"`         // > 0: the document is the second file of its set, behind a file of that many bytes
+	Disk        bool   `json:"disk,omitempty"`        // the document is written to disk and loaded with text.ReadFile (as examples/json does)
+	ReaderFirst bool   `json:"readerFirst,omitempty"` // the reader exists before the document is placed in its set
+	PadWS       int    `json:"padWs,omitempty"`       // > 0: that many spaces and one CRLF are put in front of the document (large files)
 }
 
 func (c *C16Case) Describe() string { return fmt.Sprintf("subset=%v doc=%q", c.Subset, c.Doc) }
@@ -157,6 +158,7 @@ func genC16(t *rapid.T) interface{} {
 		c.Pre = rapid.SampledFrom([]int{65530, 65536, 70000}).Draw(t, "prehuge")
 	}
 	c.Disk = rapid.IntRange(0, 3).Draw(t, "disk") == 0
+	c.ReaderFirst = rapid.Bool().Draw(t, "readerFirst")
 	if rapid.IntRange(0, 30).Draw(t, "pad") == 7 {
 		c.Disk = true
 		c.PadWS = rapid.SampledFrom([]int{65533, 65534, 65535, 65536, 131070, 131071, 131072}).Draw(t, "padws")
@@ -293,7 +295,7 @@ func checkJSONDoc(doc string, subset bool, st *Stats) (err error) {
 	return checkJSONDocAt(doc, subset, 0, false, st)
 }
 
-func checkJSONDocAt(doc string, subset bool, pre int, disk bool, st *Stats) (err error) {
+func checkJSONDocAt(doc string, subset bool, pre int, disk bool, st *Stats, readerFirst ...bool) (err error) {
 	var got interface{}
 	var gerr error
 	func() {
@@ -316,11 +318,21 @@ func checkJSONDocAt(doc string, subset bool, pre int, disk bool, st *Stats) (err
 			}
 			return parsley.NewFileSet(f)
 		}
-		ctx := parsley.NewContext(newSet(), text.NewReader(f))
+		var early *text.Reader
+		if len(readerFirst) > 0 && readerFirst[0] {
+			early = text.NewReader(f)
+		}
+		rd := func() *text.Reader {
+			if early != nil {
+				return early
+			}
+			return text.NewReader(f)
+		}
+		ctx := parsley.NewContext(newSet(), rd())
 		got, gerr = parsley.Evaluate(ctx, jsonP)
 		// the same loaded file evaluated again (fresh context and reader) must give the same answer:
 		// evaluating must not consume or rewrite the document
-		ctx2 := parsley.NewContext(newSet(), text.NewReader(f))
+		ctx2 := parsley.NewContext(newSet(), rd())
 		got2, gerr2 := parsley.Evaluate(ctx2, jsonP)
 		if (gerr == nil) != (gerr2 == nil) || (gerr == nil && !reflect.DeepEqual(got, got2)) || (gerr != nil && gerr.Error() != gerr2.Error()) {
 			err = fmt.Errorf("a second evaluation of the same loaded file differs: first %#v / %v, second %#v / %v", got, gerr, got2, gerr2)
@@ -444,7 +456,10 @@ func checkC16(ci interface{}, st *Stats) error {
 	if c.Disk {
 		st.Class("document loaded with text.ReadFile")
 	}
-	return checkJSONDocAt(doc, c.Subset, c.Pre, c.Disk, st)
+	if c.ReaderFirst && c.Pre > 0 {
+		st.Class("reader created before the document was placed")
+	}
+	return checkJSONDocAt(doc, c.Subset, c.Pre, c.Disk, st, c.ReaderFirst)
 }
 
 func init() {
